@@ -7,13 +7,15 @@ tie    : C  extracted model (build/modelrun_eval) vs the real interpreter
             implrun evalcell : one `set` statement / one infix expression per cell (operator x type pair x
                                operand pair x literal|variable), executed by ProcessSetStatement /
                                ProcessExpression of a real interpreter
+            implrun evalprog : whole programs executed by ProcessBlockStatement, compared with Model/Eval.v
+                               (executable reference only: no theorem is stated about control flow)
 oracle : on the implementation alone: ACL verdict = python longest-prefix reference, verdict invariant
          under shuffling; duality of the comparison operators on the implementation's own answers.
 """
 import os
 import vcommon as V
 import eval_util as EU
-from gen import aclgen, evalgen
+from gen import aclgen, evalgen, proggen
 
 
 def _acl_requests(rng, n_acl, stats):
@@ -270,6 +272,46 @@ CELL_CORPUS = [
 ]
 
 
+def _canon_prog(rep, side):
+    f = (rep or "none").split()
+    d = {}
+    for w in f[1:]:
+        k, _, v = w.partition("=")
+        d[k.replace("var.v", "")] = evalgen._canon_val(v, side) if v not in ("?", "") else "?"
+    return (f[0] if f else "none"), d
+
+
+def run_programs(ctx, model, impl, thorough):
+    """whole programs (declare / set / if / else if / else / switch with fallthrough and default) executed by
+    ProcessBlockStatement of the real interpreter and by Model/Eval.v; observables: error or not, and the final
+    value (type, canonical text, flags) of every pooled variable"""
+    rng = ctx.rng
+    stats = {}
+    progs = [proggen.gen_program(rng, stats) for _ in range(60000 if thorough else 2500)]
+    ireq = ["- %s %s" % (v.encode().hex(), ",".join(names) or "-") for v, s, names in progs]
+    mreq = ["prog " + s for v, s, names in progs]
+    irep = V.run_batch(impl + ["evalprog"], ireq, hang_s=5)
+    mrep = V.run_batch([model], mreq, hang_s=60)
+    out = {}
+    agree = 0
+    for (v, s, names), ir, mr in zip(progs, irep, mrep):
+        ist, idd = _canon_prog(ir, "impl")
+        mst, mdd = _canon_prog(mr, "model")
+        out[ist] = out.get(ist, 0) + 1
+        if ist == mst and ist in ("ok", "err") and all(idd.get(k) == mdd.get(k, "?") for k in idd):
+            agree += 1
+            continue
+        diff = [k for k in idd if idd.get(k) != mdd.get(k, "?")]
+        ctx.violation("program result differs between the interpreter and Model/Eval.v (%s vs %s, variables %s)" % (
+            ist, mst, ",".join("var.v" + k for k in diff[:4]) or "-"),
+            {"program": v, "model_program": s, "impl": ir, "model": mr})
+    ctx.coverage["programs"] = {"programs": len(progs), "agree_with_model": agree, "interpreter_outcomes": out,
+                                "statement_kinds": dict(sorted(stats.items())),
+                                "statements_total": sum(stats.values())}
+    ctx.samples += [{"program": progs[i][0][:400], "interpreter": (irep[i] or "")[:160]} for i in (0, len(progs) - 1)]
+    return len(progs), len(set(ireq))
+
+
 def run(ctx):
     thorough = ctx.thorough()
     proved = ctx.prove()
@@ -287,14 +329,17 @@ def run(ctx):
     ]
     n1, d1 = run_acl(ctx, model, impl, thorough)
     n2, d2 = run_cells(ctx, model, impl, thorough)
+    n3, d3 = run_programs(ctx, model, impl, thorough)
     if not proved and not ctx.violations:
         ctx.violation("proof obligation of C07 no longer checks: " + (ctx.broken or "Props/C07.v"),
                       {"no_failing_input": True, "broken": ctx.broken,
-                       "searched": "%d ACL probes and %d operator cells: the interpreter agrees with the reference on all of them" % (n1, n2)})
-    ctx.coverage.update({"evaluations": n1 + n2, "distinct_nontrivial": d1 + d2})
+                       "searched": "%d ACL probes, %d operator cells, %d programs: the interpreter agrees with the reference on all of them" % (n1, n2, n3)})
+    ctx.coverage.update({"evaluations": n1 + n2 + n3, "distinct_nontrivial": d1 + d2 + d3})
     return ctx.finish(
         level="proof",
         rule="theorems of coq/Props/C07.v (unbounded); correspondence: ACLs (random <= 8 entries + exhaustive toy family) x probes "
              "inside / on both boundaries / outside every entry (distinct = distinct (acl, address)); operator cells = "
              "operator x type pair x {literal, variable} x boundary/random operand pair executed by ProcessSetStatement / "
-             "ProcessExpression (distinct = distinct request text); thorough = the full boundary grid")
+             "ProcessExpression (distinct = distinct request text); thorough = the full boundary grid; programs = type-directed "
+             "programs of <= ~30 statements (declare, set with all operators, nested if / else if / else, switch with "
+             "fallthrough and default) over INTEGER FLOAT STRING BOOL RTIME IP locals against Model/Eval.v")
